@@ -332,7 +332,7 @@ func (c *Ctx) Finish() int {
 				desc = f.Description
 			}
 		}
-		fmt.Printf("KNOWN-FINDING: property=%s %s (seen %d times; signature %q)\n", c.ID, desc, c.knownSeen[k], k)
+		fmt.Printf("KNOWN-FINDING: property=%s signature=%q seen=%d: %s\n", c.ID, k, c.knownSeen[k], desc)
 	}
 	for n, k := range c.notes {
 		fmt.Printf("NOTE %s (x%d)\n", n, k)
